@@ -1,8 +1,16 @@
 #!/bin/sh
-# builds /verif/ocaml/modelrun from the extracted model (coq/extraction/Extract.v)
+# builds one runner /verif/ocaml/modelrun_<name> per extracted gen/<name>.ml
+# (each produced by coq/extraction/Extract<Name>.v and exposing run_line)
 set -e
 cd "$(dirname "$0")"
-cp driver.ml gen/driver.ml
-cd gen
-ocamlfind ocamlopt -O3 -w -a -o ../modelrun model.mli model.ml driver.ml 2>/dev/null \
-  || ocamlfind ocamlopt -w -a -o ../modelrun model.mli model.ml driver.ml
+for ml in gen/*.ml; do
+  name=$(basename "$ml" .ml)
+  case "$name" in drv_*) continue;; esac
+  out="modelrun_$name"
+  if [ ! -x "$out" ] || [ "$ml" -nt "$out" ] || [ driver.ml -nt "$out" ]; then
+    mod=$(echo "$name" | sed 's/^\(.\)/\U\1/')
+    sed "s/Model\.run_line/$mod.run_line/" driver.ml > "gen/drv_$name.ml"
+    (cd gen && ocamlfind ocamlopt -O3 -w -a -o "../$out" "$name.mli" "$name.ml" "drv_$name.ml" 2>/dev/null \
+      || ocamlfind ocamlopt -w -a -o "../$out" "$name.mli" "$name.ml" "drv_$name.ml")
+  fi
+done
